@@ -178,6 +178,11 @@ bool SocketPrivate::readHeaders()
     // use this header - WebSocket requests, for example, do not
     if (requestHeaders.contains("Content-Length")) {
         requestDataTotal = requestHeaders.value("Content-Length").toLongLong();
+
+        // Anything beyond the declared length is not part of this request
+        if (requestDataTotal >= 0 && readBuffer.size() > requestDataTotal) {
+            readBuffer.truncate(static_cast<int>(requestDataTotal));
+        }
     }
 
     // Indicate that the headers have been parsed
@@ -188,6 +193,11 @@ bool SocketPrivate::readHeaders()
 
 void SocketPrivate::readData()
 {
+    // Anything beyond the declared length is not part of this request
+    if (requestDataTotal >= 0 && requestDataRead + readBuffer.size() > requestDataTotal) {
+        readBuffer.truncate(static_cast<int>(requestDataTotal - requestDataRead));
+    }
+
     // Emit the readyRead() signal if any data is available in the buffer
     if (readBuffer.size()) {
         Q_EMIT q->readyRead();
